@@ -287,6 +287,7 @@ func RunCase(t *testing.T, spec CaseSpec) *CaseResult {
 		if tape.S("cfg").Chance(1, 8) {
 			sc.ValuesOnly, sc.LateScribble = true, false
 		}
+		sc.MarshalTx = tape.S("consumer").Chance(1, 5)
 	}
 	r := Execute(t, sc, tape)
 	res.Runs = append(res.Runs, r)
